@@ -1,11 +1,154 @@
-(* C30 — extensions are transparent and run their hooks in lifecycle order. *)
+(* C30 — extensions are transparent and run their hooks in lifecycle order.
+   Model: theories/Ext.v; proofs: theories/ExtProofs.v. *)
 From AG Require Import Ext ExtProofs.
 Open Scope N_scope.
 
-(* every hook kind: a chain of pass-through hooks computes exactly the base function *)
+(* 1. every hook kind: a chain of pass-through hooks (each calls next once with
+   its own arguments and returns next's result) computes exactly the base *)
 Theorem C30_passthrough : forall (A R : Type) (chain : list (@hook A R)) base a,
     Forall passthrough chain -> fst (run chain base a) = fst (base a).
 Proof. exact @run_passthrough_value. Qed.
 Check C30_passthrough : forall (A R : Type) (chain : list (@hook A R)) base a,
     Forall passthrough chain -> fst (run chain base a) = fst (base a).
 Print Assumptions C30_passthrough.
+
+(* 2. nesting: enter_1 .. enter_n, base, exit_n .. exit_1, for every chain of
+   recording extensions and every hook kind *)
+Theorem C30_nesting : forall (A R : Type) l kind okf (base : A -> M R) a,
+    run (rec_chain l kind okf) base a =
+    (fst (base a),
+     map (fun e => Enter e (kind a)) l ++ snd (base a) ++
+     map (fun e => Exit e (kind a) (okf (fst (base a)))) (rev l)).
+Proof. exact @run_rec_chain. Qed.
+Check C30_nesting : forall (A R : Type) l kind okf (base : A -> M R) a,
+    run (rec_chain l kind okf) base a =
+    (fst (base a),
+     map (fun e => Enter e (kind a)) l ++ snd (base a) ++
+     map (fun e => Exit e (kind a) (okf (fst (base a)))) (rev l)).
+Print Assumptions C30_nesting.
+
+(* 3. the execute runner: pass-through extensions hand no data to the factory;
+   in general the factory receives the extensions' data merged outer to inner *)
+Theorem C30_execute_passthrough : forall (D R : Type) (merge : D -> D -> D) (l : list N) okf (factory : option D -> M R) op,
+    next_execute merge (map (fun e => rec_xhook e okf) l) factory op =
+    (fst (factory None), wrap l (HExecute op) (okf (fst (factory None))) (snd (factory None))).
+Proof. exact @next_execute_rec. Qed.
+Check C30_execute_passthrough : forall (D R : Type) (merge : D -> D -> D) (l : list N) okf (factory : option D -> M R) op,
+    next_execute merge (map (fun e => rec_xhook e okf) l) factory op =
+    (fst (factory None), wrap l (HExecute op) (okf (fst (factory None))) (snd (factory None))).
+Print Assumptions C30_execute_passthrough.
+
+Theorem C30_execute_data_order : forall (D R : Type) (merge : D -> D -> D) (ds : list (option D)) (factory : option D -> M R) acc op d0,
+    run_execute merge (map data_hook ds) factory acc op d0 = factory (fold_left (merge_opt merge) (d0 :: ds) acc).
+Proof. exact @run_execute_data. Qed.
+Check C30_execute_data_order : forall (D R : Type) (merge : D -> D -> D) (ds : list (option D)) (factory : option D -> M R) acc op d0,
+    run_execute merge (map data_hook ds) factory acc op d0 = factory (fold_left (merge_opt merge) (d0 :: ds) acc).
+Print Assumptions C30_execute_data_order.
+
+(* 4. lifecycle: the hook trace of ANY request (any schema, world, document or
+   parse failure, validation outcome, operation name, mode, number of
+   extensions, fuel) is request( prepare, parse, validation, execute( nested
+   resolve hooks ) ) cut at the first failing phase; each phase at most once,
+   in that order, every hook nested in registration order *)
+Theorem C30_lifecycle : forall q S w od opname vars cf n resp evs lf,
+    x_request q S w od opname vars cf n = Ok (resp, evs, lf) -> lifecycle (ids (c_k cf)) evs.
+Proof. exact request_lifecycle. Qed.
+Check C30_lifecycle : forall q S w od opname vars cf n resp evs lf,
+    x_request q S w od opname vars cf n = Ok (resp, evs, lf) -> lifecycle (ids (c_k cf)) evs.
+Print Assumptions C30_lifecycle.
+
+(* 5. resolve hooks: during execution every extension sees exactly one field
+   hook per resolver invocation and one item hook per list item, well nested *)
+Theorem C30_resolve_hooks_exec : forall q S w frags vars vdefs ch n st rt nid sels p r,
+    x_set q S w frags vars vdefs ch n st rt nid sels p = Ok r ->
+    nested ch (x_ev r) /\
+    (forall e, cnt e is_field (x_ev r) = (count_occ N.eq_dec ch e * length (x_tr r))%nat) /\
+    (forall e, cnt e is_item (x_ev r) = (count_occ N.eq_dec ch e * x_ni r)%nat).
+Proof. intros q S w frags vars vdefs ch n. exact (proj1 (events_all q S w frags vars vdefs ch n)). Qed.
+Check C30_resolve_hooks_exec : forall q S w frags vars vdefs ch n st rt nid sels p r,
+    x_set q S w frags vars vdefs ch n st rt nid sels p = Ok r ->
+    nested ch (x_ev r) /\
+    (forall e, cnt e is_field (x_ev r) = (count_occ N.eq_dec ch e * length (x_tr r))%nat) /\
+    (forall e, cnt e is_item (x_ev r) = (count_occ N.eq_dec ch e * x_ni r)%nat).
+Print Assumptions C30_resolve_hooks_exec.
+
+Theorem C30_resolve_count : forall q S w od opname vars cf n resp evs lf e,
+    c_intro cf = false ->
+    x_request q S w od opname vars cf n = Ok (Some resp, evs, lf) ->
+    cnt e is_field evs = ((if (e <? c_k cf)%N then 1 else 0) * length (rs_trace resp))%nat.
+Proof. intros. rewrite <- ids_count. eapply request_resolve_count; eauto. Qed.
+Check C30_resolve_count : forall q S w od opname vars cf n resp evs lf e,
+    c_intro cf = false ->
+    x_request q S w od opname vars cf n = Ok (Some resp, evs, lf) ->
+    cnt e is_field evs = ((if (e <? c_k cf)%N then 1 else 0) * length (rs_trace resp))%nat.
+Print Assumptions C30_resolve_count.
+
+(* 6. transparency of execution: with any chain of recording extensions, unless
+   a registry lookup by static type name fails (x_lf), value, errors and
+   resolver invocations are those of the run without extensions *)
+Theorem C30_transparent_exec : forall q S w frags vars vdefs ch n st rt nid sels p r,
+    x_set q S w frags vars vdefs ch n st rt nid sels p = Ok r -> x_lf r = false ->
+    exists r0, x_set q S w frags vars vdefs [] n st rt nid sels p = Ok r0 /\
+               x_v r0 = x_v r /\ x_es r0 = x_es r /\ x_tr r0 = x_tr r /\ x_lf r0 = false.
+Proof. intros q S w frags vars vdefs ch n. exact (proj1 (transparent_all q S w frags vars vdefs ch n)). Qed.
+Check C30_transparent_exec : forall q S w frags vars vdefs ch n st rt nid sels p r,
+    x_set q S w frags vars vdefs ch n st rt nid sels p = Ok r -> x_lf r = false ->
+    exists r0, x_set q S w frags vars vdefs [] n st rt nid sels p = Ok r0 /\
+               x_v r0 = x_v r /\ x_es r0 = x_es r /\ x_tr r0 = x_tr r /\ x_lf r0 = false.
+Print Assumptions C30_transparent_exec.
+
+Theorem C30_transparent_request : forall q S w od opname vars cf n resp evs,
+    x_request q S w od opname vars cf n = Ok (resp, evs, false) ->
+    exists evs0, x_request q S w od opname vars (with_k cf 0) n = Ok (resp, evs0, false).
+Proof. exact request_transparent. Qed.
+Check C30_transparent_request : forall q S w od opname vars cf n resp evs,
+    x_request q S w od opname vars cf n = Ok (resp, evs, false) ->
+    exists evs0, x_request q S w od opname vars (with_k cf 0) n = Ok (resp, evs0, false).
+Print Assumptions C30_transparent_request.
+
+(* the known class is narrow: a field collected under its own (registered)
+   runtime object type never fails the lookup *)
+Theorem C30_known_class_needs_foreign_static_type : forall S rt nm t,
+    obj_field_ty S rt nm = Some t -> lookup_ret S rt nm = Some t.
+Proof. exact lookup_concrete. Qed.
+Check C30_known_class_needs_foreign_static_type : forall S rt nm t,
+    obj_field_ty S rt nm = Some t -> lookup_ret S rt nm = Some t.
+Print Assumptions C30_known_class_needs_foreign_static_type.
+
+(* 7. the full statement is refuted: `mutation { id }` as an introspection-only
+   request runs on EmptyMutation, whose static name is not registered *)
+Theorem C30_transparent_refuted :
+  exists q S w d cf n r1 e1 r0 e0,
+    x_request q S w (Some d) None [] cf n = Ok (r1, e1, true) /\
+    x_request q S w (Some d) None [] (with_k cf 0) n = Ok (r0, e0, false) /\
+    oresp_same r1 r0 = false /\
+    r1 = Some {| rs_data := VNull; rs_errors := [[]]; rs_trace := [] |} /\
+    r0 = Some {| rs_data := VObj [(6, VNull)]; rs_errors := []; rs_trace := [] |}.
+Proof. exact transparent_refuted. Qed.
+Check C30_transparent_refuted :
+  exists q S w d cf n r1 e1 r0 e0,
+    x_request q S w (Some d) None [] cf n = Ok (r1, e1, true) /\
+    x_request q S w (Some d) None [] (with_k cf 0) n = Ok (r0, e0, false) /\
+    oresp_same r1 r0 = false /\
+    r1 = Some {| rs_data := VNull; rs_errors := [[]]; rs_trace := [] |} /\
+    r0 = Some {| rs_data := VObj [(6, VNull)]; rs_errors := []; rs_trace := [] |}.
+Print Assumptions C30_transparent_refuted.
+
+(* non-vacuity: a query with a list under two extensions: executed, no failing
+   lookup, 36 events accepted by the lifecycle checker *)
+Theorem C30_nonvacuous :
+  match x_request quirks_today S0 w0 (Some d_query) None [] (cf_norm 2) 10 with
+  | Ok (Some r, evs, false) =>
+      value_eqb (rs_data r) (VObj [(6, VInt 0); (8, VList [VInt 4; VInt 5])]) &&
+      Nat.eqb (length evs) 36 && lifecycle_ok 2 evs (Some (length (rs_trace r)))
+  | _ => false
+  end = true.
+Proof. exact transparent_nonvacuous. Qed.
+Check C30_nonvacuous :
+  match x_request quirks_today S0 w0 (Some d_query) None [] (cf_norm 2) 10 with
+  | Ok (Some r, evs, false) =>
+      value_eqb (rs_data r) (VObj [(6, VInt 0); (8, VList [VInt 4; VInt 5])]) &&
+      Nat.eqb (length evs) 36 && lifecycle_ok 2 evs (Some (length (rs_trace r)))
+  | _ => false
+  end = true.
+Print Assumptions C30_nonvacuous.
